@@ -167,3 +167,15 @@ theorem C14_gen_peak_ahead_eq_model (hp s : List Ev) (r : Refines hp s) (n : Nat
   simp only [GenFn.peak_ahead, C14_gen_is_empty_eq_model, C14_gen_len_eq_model, gen_lt_eq, hlive, Py.nsmallest,
     Int.toNat_natCast, hsort]
   all_goals (cases hp <;> simp <;> (try omega))
+
+/-! ### simulator.py -/
+
+/-- `Simulator.run_for` as generated makes exactly one call `run_until(self.time + time_delta)` — the model's `runFor`
+    (C15: the pieces a run is chunked into by `run_for` are `run_until` pieces from the current clock). -/
+theorem C15_gen_run_for_eq_model (f : Nat) (s : Sim) (d : Int) :
+    GenFn.run_for ⟨s.now⟩ d = [s.now + d] ∧ runFor f s d = runUntil f s (s.now + d) := by
+  refine ⟨?_, rfl⟩
+  simp only [GenFn.run_for]
+  first
+    | (simp; done)
+    | (simp <;> omega)
